@@ -39,13 +39,17 @@ pub fn v_as_ref_bytes<B: AsRef<[u8]>>(b: &B) -> (r: &[u8]) {
 
 /// `u16::from_be_bytes` (std; total)
 #[verifier::external_body]
-pub fn v_u16_from_be_bytes(b: [u8; 2]) -> (r: u16) {
+pub fn v_u16_from_be_bytes(b: [u8; 2]) -> (r: u16)
+    ensures r as int == b[0] as int * 256 + b[1] as int
+{
     u16::from_be_bytes(b)
 }
 
 /// `usize::try_from(u32::from_be_bytes(b)).map_err(|_| Error::InvalidCompressedCircuit)` (total)
 #[verifier::external_body]
-pub fn v_u32_be_to_usize(b: [u8; 4]) -> (r: Result<usize, Error>) {
+pub fn v_u32_be_to_usize(b: [u8; 4]) -> (r: Result<usize, Error>)
+    ensures r == Ok::<usize, Error>((b[0] as int * 16777216 + b[1] as int * 65536 + b[2] as int * 256 + b[3] as int) as usize)
+{
     usize::try_from(u32::from_be_bytes(b)).map_err(|_| Error::InvalidCompressedCircuit)
 }
 
